@@ -21,16 +21,17 @@ TRUSTED = [
 
 class Plan:
     def __init__(self, prop, models, extra=None, level="model_checking", race=False, rule="", assumptions=None,
-                 engine="http", backends=None, rows_to_scenarios=None, post=None):
+                 engine="http", backends=None, rows_to_scenarios=None, post=None, test="TestDrive", trace_module="Trace"):
         self.prop, self.models, self.extra, self.level, self.race = prop, models, extra, level, race
         self.rule, self.assumptions, self.engine, self.backends = rule, assumptions or TRUSTED, engine, backends
         self.rows_to_scenarios = rows_to_scenarios
         self.post = post
+        self.test, self.trace_module = test, trace_module
 
 
-def mc(module, tag, invariants=("NoViolation",), export=True, replay_cap=None, **consts):
+def mc(module, tag, invariants=("NoViolation",), export=True, replay_cap=None, constraint=None, **consts):
     return {"module": module, "tag": tag, "inv": list(invariants), "export": export, "consts": consts,
-            "replay_cap": replay_cap or {}}
+            "replay_cap": replay_cap or {}, "constraint": constraint}
 
 
 def q(s):
@@ -231,6 +232,62 @@ PLANS["C16"] = Plan("C16", lambda tier: [], extra=gen.concurrent, race=True, lev
                          "detector: same URI / same variant, other variants, other URIs, unsafe methods, stale-while-revalidate "
                          "background refreshes; ownership monitors (response and request not written after return) and the "
                          "history-independent sequential monitors evaluated by TLC on every reply")
+def swr_models(tier):
+    settings = [0, 1000, 999999] if tier == "quick" else [0, 1000, 2000, 5000, 10000, 999999]
+    return [mc("MC_swr", "swr_%d" % s_, Defects="{}", Tier=q(tier), Export="TRUE", SwrSetting=str(s_)) for s_ in settings]
+
+
+PLANS["C20"] = Plan("C20", swr_models, race=False,
+                    rule="behaviours = every scenario of MC_swr: a stored response served stale under stale-while-revalidate while the "
+                         "background request is answered after 0, 1, T-1, T, T+1, T+4 seconds or never, with 304 / full reply / error / "
+                         "503, for each WithSWRTimeout setting (not given, 1 s, negative; thorough adds 2 s, 5 s, 10 s) and with the "
+                         "caller's context cancelled before the call, right after the return or never; exported by TLC and replayed "
+                         "on the virtual clock; the SwrTiming monitor checks the foreground elapsed time (0 s), exactly one background "
+                         "request with the stored validators, its cancellation at the effective timeout and that no goroutine of "
+                         "the transport is left at the horizon; non-trivial = a stale-while-revalidate exchange or its end was judged")
+KV_TRUSTED = ["values are identified by SHA-256 of the returned bytes computed by the harness; a strict prefix of a known value counts as torn",
+              "the kernel's file semantics (atomic rename, truncate, unlink) as modelled in FsAtomic.tla",
+              "TLC applies every recorded operation to the reference map of spec/KVStore.tla and judges its outcome (spec/TraceKV.tla)"]
+
+
+def kv_models(tier):
+    return [mc("MC_kv", "kv", invariants=("OneValue", "Exported"), Depth="3" if tier == "quick" else "4", Export="TRUE"),
+            mc("FsLayout", "fslayout", invariants=("Refines", "NoFailure"), export=False, constraint="Small",
+               DirMarker="TRUE", Threshold="1", Frag="2", MaxLen="4")]
+
+
+def atomic_models(tier):
+    big = tier == "thorough"
+    return [mc("FsAtomic", "fsatomic", invariants=("NoTornRead", "LiveComplete"), export=False,
+               Writers="{1, 2, 3}" if big else "{1, 2}", Readers="{1, 2}" if big else "{1}", Deleters="{1}", Vals="{1, 2}",
+               Chunks="3" if big else "2", WriteMode=q("rename"), TmpNames=q("unique"))]
+
+
+PLANS["C14"] = Plan("C14", kv_models, extra=gen.kv_random, rows_to_scenarios=gen.kv_from_rows, test="TestKV", trace_module="TraceKV",
+                    assumptions=KV_TRUSTED,
+                    rule="operation sequences = every sequence of Set / Get / Delete / Keys / Reopen up to the depth in model_checks over "
+                         "three keys that are prefixes of each other and two values (MC_kv, exported by TLC with the outcome the "
+                         "reference map prescribes), rendered to adversarial concrete keys (36-byte fragments, 191/192/255-byte "
+                         "file-name boundaries, arbitrary bytes, URL-shaped keys with '#', the empty key) on memory / file system / "
+                         "encrypted file system, partly through the expapi HTTP handlers; plus long random sequences over six keys; "
+                         "FsLayout.tla checks the file-name design at model scale; non-trivial = a Get / Delete / listing was judged")
+PLANS["C15"] = Plan("C15", atomic_models, extra=gen.kv_cuts, test="TestKV", trace_module="TraceKV", assumptions=KV_TRUSTED,
+                    level="model_checking",
+                    rule="FsAtomic.tla: all interleavings of the file-level steps of concurrent Set / Get / Delete on one key with "
+                         "write failure and process kill at every step (exhaustive TLC run of the rename-based design); binding: a "
+                         "writer child process is cut short by a file size limit at every byte 0..len(+overhead) of the value, or "
+                         "kills itself at every hook step of set() and at random instants, with and without a previous value, with "
+                         "and without encryption; afterwards Get / Keys / reopen must behave as the map with the old or the new "
+                         "value or absent; non-trivial = a Get after a cut or killed write was judged")
+PLANS["C17"] = Plan("C17", lambda tier: [], extra=gen.kv_crypto, test="TestKV", trace_module="TraceKV", level="exploration",
+                    assumptions=KV_TRUSTED + ["nothing is claimed about cryptographic strength; only the observable protocol: no 16-byte "
+                                              "window of the value in any file, fresh ciphertext per write, rejection of modified files"],
+                    rule="for values of several sizes on the encrypted backend: every byte position of the stored file is bit-flipped "
+                         "and the file truncated there (quick: every 3rd position for longer files), extended, or swapped with another "
+                         "key's file, then read; the same value is written three times; the store is reopened with another key and "
+                         "without encryption; every way of switching encryption on (option, DSN on / aesgcm, DSN + environment key) "
+                         "with valid, missing, empty, malformed and wrong-length keys; judged by TLC against KVStore.tla; "
+                         "non-trivial = an operation under encryption was judged")
 PLANS["C03"] = Plan("C03", uri_models, rows_to_scenarios=uri_scenarios,
                     rule="pairs (a, b) = every base URI of Uri.tla with up to two components replaced from the component alphabets "
                          "(scheme / host incl. IP literals / port / path segments incl. escapes, raw non-ASCII and dot segments / "
@@ -267,7 +324,7 @@ def scenarios_from_rows(rows, tag, backend_of):
     out = []
     for i, r in enumerate(rows):
         sid = "%s/%06d" % (tag, i)
-        out.append({"id": sid, "backend": backend_of(i), "opt": {}, "steps": r["steps"], "grp": "", "spv": 0})
+        out.append({"id": sid, "backend": backend_of(i), "opt": r.get("opt", {}), "steps": r["steps"], "grp": "", "spv": 0})
     return out
 
 
@@ -304,6 +361,20 @@ def stratified(scn, cap, seed):
 
 def drift_of(scn, events):
     """spec -> code comparison: the model's prediction of every reply vs. what the code returned"""
+    if "ops" in scn:
+        diffs = []
+        kvs = [e for e in events if e.get("ev") == "kv"]
+        for i, (o, e) in enumerate(zip(scn["ops"], kvs)):
+            p = o.get("pred")
+            if not p:
+                continue
+            if p["ok"] != e["ok"] and not (o["op"] in ("keys", "api_list") and e.get("st") == 501):
+                diffs.append("op%d %s ok: model %r code %r" % (i, e["op"], p["ok"], e["ok"]))
+            if o["op"] in ("get", "api_get") and p["ok"] == 1 and p["rv"] != e["rv"]:
+                diffs.append("op%d get rv: model %r code %r" % (i, p["rv"], e["rv"]))
+            if o["op"] in ("keys", "api_list") and e.get("st") != 501 and list(p["keys"]) != list(e["keys"]):
+                diffs.append("op%d keys: model %r code %r" % (i, p["keys"], e["keys"]))
+        return diffs
     preds = [s.get("pred") for s in scn["steps"] if s.get("op") == "req"]
     rets = [e for e in events if e.get("ev") == "ret"]
     ops = {}
@@ -333,12 +404,15 @@ def run_property(prop, tier, seed):
         # 1. the specification itself: exhaustive TLC runs, behaviours exported
         scenarios, states, transitions, mcinfo = [], 0, 0, []
         for m in plan.models(tier):
-            stats, rows, _ = vlib.model_check(work, m["module"], m["consts"], invariants=m["inv"], export=m["export"], name=m["tag"])
+            stats, rows, _ = vlib.model_check(work, m["module"], m["consts"], invariants=m["inv"], export=m["export"], name=m["tag"],
+                                              constraint=m.get("constraint"))
             states += stats["distinct"]
             transitions += stats["generated"]
             mcinfo.append({"config": m["tag"], "constants": m["consts"], "distinct_states": stats["distinct"],
                            "states_generated": stats["generated"], "behaviours_exported": len(rows), "wall_s": stats["wall_s"]})
             be = plan.backends or (lambda i: "mem")
+            if not m["export"]:
+                continue
             if plan.rows_to_scenarios:
                 scn = plan.rows_to_scenarios(rows, tier, seed)
             else:
@@ -357,8 +431,8 @@ def run_property(prop, tier, seed):
             raise Inconclusive("no behaviours to replay")
         byid = {s["id"]: s for s in scenarios}
         # 2. replay into the real code, 3. validate what the code did
-        traces, infos = vlib.run_harness(binary, scenarios, work, seed)
-        viol, nt, events = vlib.validate_traces(work, traces)
+        traces, infos = vlib.run_harness(binary, scenarios, work, seed, test=plan.test)
+        viol, nt, events = vlib.validate_traces(work, traces, module=plan.trace_module)
         mine = [v for v in viol if prop in v["props"]]
         others = sorted({p for v in viol for p in v["props"] if p != prop})
         # drift accounting on a sample of traces (model prediction vs code)
@@ -400,8 +474,8 @@ def run_property(prop, tier, seed):
             if len(reported) >= 3:
                 continue
             group = [scn] if not scn.get("grp") else [s for s in scenarios if s.get("grp") == scn["grp"]]
-            t2, _ = vlib.run_harness(binary, group, work, seed, nproc=1, tag="confirm")
-            v2, _, _ = vlib.validate_traces(work, t2, nproc=1)
+            t2, _ = vlib.run_harness(binary, group, work, seed, nproc=1, tag="confirm", test=plan.test)
+            v2, _, _ = vlib.validate_traces(work, t2, nproc=1, module=plan.trace_module)
             if any(prop in x["props"] for x in v2):
                 path = vlib.write_replay(prop, scn, seed, vlib.scenario_trace(t2[0], scn["id"]),
                                          "monitor %s violated at trace line %d (%s)" % (prop, v["line"], v["kind"]))
@@ -441,8 +515,8 @@ def replay(prop, path):
     work = vlib.Work(prop + "-replay")
     try:
         binary = vlib.build_harness(work, race=PLANS[prop].race)
-        traces, _ = vlib.run_harness(binary, [r["scenario"]], work, r["seed"], nproc=1)
-        viol, _, _ = vlib.validate_traces(work, traces, nproc=1)
+        traces, _ = vlib.run_harness(binary, [r["scenario"]], work, r["seed"], nproc=1, test=PLANS[prop].test)
+        viol, _, _ = vlib.validate_traces(work, traces, nproc=1, module=PLANS[prop].trace_module)
         for ev in vlib.scenario_trace(traces[0], r["scenario"]["id"]):
             print(json.dumps(ev))
         if any(prop in v["props"] for v in viol):
